@@ -1590,7 +1590,11 @@ class AV:
                 return mk_s((("h", args[0]),))
             if name in ("list", "tuple") and len(args) == 1:
                 a = args[0]
-                return mk_list(_spread_items(a)) if a[0] in ("list", "comp") else ("call", name, args, ())
+                if a[0] in ("list", "comp"):
+                    return mk_list(_spread_items(a))
+                if a[0] in ("attr", "sym", "sub", "slice") or (a[0] == "if" and all(x[0] in ("list", "comp", "attr", "sym") for x in a[2:4])):
+                    return a  # a copy of a sequence is that sequence (values are immutable here)
+                return ("call", name, args, ())
             if name in ("list", "tuple", "dict", "set") and not args and not kwargs:
                 return ("list", ()) if name != "dict" else ("dict", ())
             if name == "dict" and not args:
